@@ -31,6 +31,16 @@ class Rec(ObjVal):
     __repr__ = show
 
 
+class RefIdx(ObjVal):
+    """the list of reference channel numbers handed in by the caller (rows selected with it are the reference records)"""
+
+    def show(self):
+        return "ref_ind"
+
+    def __repr__(self):
+        return "RefIdx"
+
+
 class Win(ObjVal):
     def __init__(self, role, lo, hi, w=None, transposed=False):
         self.role, self.lo, self.hi, self.w, self.transposed = role, lo, hi, (P.c(1) if w is None else w), transposed
@@ -199,6 +209,8 @@ class Interp(seqdom.Interp):
         for p_, r in self.roles.items():
             if r[0] == "rec" and p_ not in args:
                 args[p_] = Rec(r[1])
+            if r[0] == "refidx" and p_ not in args:
+                args[p_] = RefIdx()
         self.sh.setdefault("errors", [])
         return super().run(fi, args)
 
@@ -207,7 +219,24 @@ class Interp(seqdom.Interp):
         """definite structural defects met while interpreting: (node, text)"""
         return self.sh.setdefault("errors", [])
 
+    def truth(self, test, env):
+        # the list of reference channels is not empty (ref.size == 0 / len(ref) == 0 / not ref.size are false)
+        if isinstance(test, ast.Compare) and len(test.ops) == 1 and isinstance(test.comparators[0], ast.Constant) and test.comparators[0].value == 0 \
+                and isinstance(test.ops[0], (ast.Eq, ast.NotEq, ast.Gt)):
+            l_ = test.left
+            inner = l_.value if isinstance(l_, ast.Attribute) and l_.attr == "size" else (l_.args[0] if isinstance(l_, ast.Call) and astq.src(l_.func) == "len" and l_.args else None)
+            if inner is not None and isinstance(self.ev(inner, env), RefIdx):
+                return not isinstance(test.ops[0], ast.Eq)
+        if isinstance(test, ast.Call) and astq.src(test.func).split(".")[-1] in ("array_equal", "array_equiv") and len(test.args) == 2 \
+                and any(isinstance(self.ev(a_, env), RefIdx) for a_ in test.args):
+            return False        # a general list of channels, not a ramp: the path of the gathered selection (a shortcut for ramps is R-shortcut's business)
+        return super().truth(test, env)
+
     def attr_hook(self, base, name, node):
+        if isinstance(base, RefIdx) and name == "ndim":
+            return I(P.c(1))
+        if isinstance(base, Rec) and name == "ndim":
+            return I(P.c(2))                # the records are (channels x samples) arrays
         if isinstance(base, Rec) and name == "shape":
             a, b = SYM[base.role]
             return Tup([I(P.s(b)), I(P.s(a))]) if base.transposed else Tup([I(P.s(a)), I(P.s(b))])
@@ -274,6 +303,9 @@ class Interp(seqdom.Interp):
         return int(p.const()) if p is not None and p.is_const() else None
 
     def index_hook(self, base, idx, node):
+        if isinstance(base, Rec) and base.role == "all" and not base.transposed and idx and isinstance(idx[0], RefIdx) \
+                and all(isinstance(x, tuple) and x[0] == "slice" and x[1] is None and x[2] is None and x[3] is None for x in idx[1:]):
+            return Rec("ref")               # Y[ref_ind, :]: the reference records
         if isinstance(base, Sq) and len(idx) == 1 and isinstance(node, ast.Subscript) and not (isinstance(idx[0], tuple) and idx[0][0] == "slice") \
                 and not (isinstance(idx[0], Val) and self.topoly(idx[0]) is not None):
             r = self.grid_gather(base, node)
@@ -433,6 +465,17 @@ class Interp(seqdom.Interp):
         return Opq(f"stack `{astq.src(node, 50)}`")
 
     def call_hook(self, fn, args, kw, node, env):
+        if fn in ("numpy.asarray", "numpy.array", "numpy.atleast_2d", "numpy.asanyarray", "numpy.ascontiguousarray", "numpy.asfarray", "numpy.copy", "numpy.atleast_1d",
+                  "list", "tuple") and args and isinstance(args[0], (Rec, RefIdx)):
+            return args[0]                  # the same records as an array (type / layout conversions keep channels and samples)
+        if isinstance(node.func, ast.Attribute) and node.func.attr in ("astype", "copy", "ravel", "flatten") and not fn.startswith("numpy."):
+            b_ = self.ev(node.func.value, env)
+            if isinstance(b_, (Rec, RefIdx)) and (isinstance(b_, RefIdx) or node.func.attr in ("astype", "copy")):
+                return b_
+        if fn == "numpy.where" and len(node.args) == 3 and isinstance(args[2], RefIdx) and isinstance(node.args[0], ast.Compare) and isinstance(node.args[1], ast.BinOp) \
+                and isinstance(node.args[1].op, ast.Add) and astq.dump(node.args[1].left) == astq.dump(node.args[2]) and astq.dump(node.args[0].left) == astq.dump(node.args[2]) \
+                and isinstance(node.args[0].ops[0], ast.Lt):
+            return args[2]                  # np.where(idx < 0, idx + n, idx): the same channels, negative numbers counted from the end
         if fn == "len" and len(args) == 1 and isinstance(args[0], Stk) and not args[0].transposed and isinstance(args[0].win, Win):
             return I(args[0].n * P.s(SYM[args[0].win.role][0]))          # rows of a stack of blocks
         if fn == "numpy.cumsum" and len(args) == 1 and not kw:
